@@ -1,3 +1,4 @@
 """L1 spec modules; importing this package registers every ADT and spec function in speclang.REG."""
 from . import strings  # noqa: F401
 from . import render  # noqa: F401
+from . import layout  # noqa: F401
